@@ -203,7 +203,7 @@ PROPS['C10'] = {
     'extra_modules': ['RQ.Props.C10Push'],
     'verdict': 'C10',
     'jobs': push_jobs(['dry=50', 'inv=2', 'unsafe=10'], ['dry=50', 'inv=3', 'unsafe=10'], nq=4000) +
-            [{'quick': ['pushsched', 'seed={seed}', 'n=900', 'perws=3', 'dry=100', 'fail=90', 'morefail=85'], 'thorough': ['pushsched', 'seed={seed}', 'n=30000', 'perws=6', 'dry=100', 'fail=90', 'morefail=85']}],
+            [{'quick': ['pushsched', 'seed={seed}', 'n=900', 'perws=3', 'dry=100', 'fail=90', 'morefail=85'], 'thorough': ['pushsched', 'seed={seed}1', 'n=1500', 'perws=6', 'dry=100', 'fail=90', 'morefail=85']}] + [{'quick': None, 'thorough': ['pushsched', 'seed={seed}%d' % k, 'n=1500', 'perws=6', 'dry=100', 'fail=90', 'morefail=85']} for k in range(2, 7)],
     'nontrivial': lambda l: '--dry-run' in l.split('|=>|')[0],
     'histogram': push_hist,
     'rule': PUSH_RULE + "; here 50% of the invocations carry --dry-run; non-trivial = has a --dry-run invocation",
@@ -406,7 +406,7 @@ PROPS['C05'] = {
     'extra_modules': ['RQ.Props.C05Refine', 'RQ.Props.C08Refine', 'RQ.Props.C05Complete'],
     'verdict': 'SPEC',
     'jobs': push_jobs(['inv=2', 'patches=5'], ['inv=3', 'patches=6'], nq=4000) +
-            [{'quick': ['pushsched', 'seed={seed}', 'n=900', 'perws=3', 'fail=75', 'morefail=70'], 'thorough': ['pushsched', 'seed={seed}', 'n=30000', 'perws=6', 'fail=75', 'morefail=70']}],
+            [{'quick': ['pushsched', 'seed={seed}', 'n=900', 'perws=3', 'fail=75', 'morefail=70'], 'thorough': ['pushsched', 'seed={seed}1', 'n=1500', 'perws=6', 'fail=75', 'morefail=70']}] + [{'quick': None, 'thorough': ['pushsched', 'seed={seed}%d' % k, 'n=1500', 'perws=6', 'fail=75', 'morefail=70']} for k in range(2, 7)],
     'par_verdict': 'C06',
     'nontrivial': push_nontrivial,
     'histogram': push_hist,
@@ -485,7 +485,7 @@ PROPS['C06'] = {
                  'RQ.Par.C06_workers_disjoint', 'RQ.Par.C06_worker_saves_alone', 'RQ.Par.C06_par_succeeds', 'RQ.Par.C06_par_is_pushSpec', 'RQ.Par.C06_par_exit_zero_iff', 'RQ.Par.C06_par_equals_seq_static'],
     'extra_modules': ['RQ.Props.C06Refine', 'RQ.Props.C06Complete'],
     'verdict': 'C06',
-    'jobs': [{'quick': ['pushsched', 'seed={seed}', 'n=900', 'perws=3', 'fail=75', 'morefail=70'], 'thorough': ['pushsched', 'seed={seed}', 'n=30000', 'perws=6', 'fail=75', 'morefail=70']}] +
+    'jobs': [{'quick': ['pushsched', 'seed={seed}', 'n=900', 'perws=3', 'fail=75', 'morefail=70'], 'thorough': ['pushsched', 'seed={seed}1', 'n=1500', 'perws=6', 'fail=75', 'morefail=70']}] + [{'quick': None, 'thorough': ['pushsched', 'seed={seed}%d' % k, 'n=1500', 'perws=6', 'fail=75', 'morefail=70']} for k in range(2, 7)] +
             push_jobs(['threads=2,3,4,8,16', 'inv=2'], ['threads=2,3,4,8,16', 'inv=3'], nq=2500, nt=60000),
     'nontrivial': lambda l: l.split('|=>|')[-1].count('2f') > 0,
     'histogram': push_hist,
